@@ -409,7 +409,11 @@ impl Ctx {
     fn violation(&self, sub: &str, fail: &Fail, case: Value) {
         let dir = format!("{VERIF_ROOT}/replays/{}", self.prop);
         let _ = std::fs::create_dir_all(&dir);
-        let doc = json!({"property": self.prop, "sub": sub, "signature": fail.sig, "message": fail.msg, "case": case});
+        let mut doc = json!({"property": self.prop, "sub": sub, "signature": fail.sig, "message": fail.msg, "case": case});
+        // which binary of a multi-part property wrote this (read back by ./check --replay)
+        if let Ok(part) = std::env::var("VERIF_PART") {
+            doc["part"] = json!(part);
+        }
         let text = serde_json::to_string_pretty(&doc).unwrap();
         let h = hash64(&text);
         let sigfile: String = fail
